@@ -2,18 +2,32 @@ package main
 
 import (
 	"fmt"
-	_ "github.com/anishathalye/porcupine"
-	_ "github.com/apache/thrift/lib/go/thrift"
+
 	"github.com/cloudwego/frugal"
-	_ "github.com/cloudwego/gopkg/protocol/thrift"
 )
 
-type T struct {
-	A int32 `frugal:"1,default,i32"`
+type A struct {
+	X     int32 `frugal:"1,default,i32"`
+	Other []*B  `frugal:"3,optional,list<B>"`
+	Leaf  *ABad `frugal:"4,optional,ABad"`
+}
+type ABad struct {
+	Bad uint32 `frugal:"1,default,i32"`
+}
+type B struct {
+	X     int32 `frugal:"1,default,i32"`
+	Other []*A  `frugal:"3,optional,list<A>"`
 }
 
 func main() {
-	b := make([]byte, 100)
-	n, err := frugal.EncodeObject(b, nil, &T{5})
-	fmt.Println(n, err, b[:n])
+	buf := make([]byte, 100)
+	for i := 0; i < 3; i++ {
+		n, err := frugal.EncodeObject(buf, nil, &B{X: 1, Other: []*A{{X: 2}}})
+		fmt.Println("B:", n, err)
+	}
+	func() {
+		defer func() { fmt.Println("recovered:", recover()) }()
+		n, err := frugal.EncodeObject(buf, nil, &B{X: 1, Other: []*A{{X: 2, Leaf: &ABad{3}}}})
+		fmt.Println("B with leaf:", n, err)
+	}()
 }
